@@ -458,6 +458,13 @@ impl State {
             return Err(Xerr::ErrorMsg(msg));
         }
         let id = self.sources.len();
+        // a token finds its source by the identity of its buffer: a text submitted
+        // again gets a buffer of its own
+        let buf = if self.sources.iter().any(|x| Xstr::ptr_eq(&x.1, &buf)) {
+            Xstr::from(buf.as_str())
+        } else {
+            buf
+        };
         let lex = Lex::new(buf.clone());
         let name = if let Some(name) = path {
             name
